@@ -43,7 +43,9 @@ def conclusions(case, impl):
     if const and nt > 1:
         # conclusion of C01_single_phase_relaxes / C01_ideal_relaxes: the excess over the frac-face value is bounded
         # by (m_i - m_f)/(2 nx) * phi_j * prod_i n(n+1)/(n(n+1) + 2 mesh_i amin), phi_j = j (2n+1-j)
-        if case["kind"] == "ideal":
+        if case["kind"] == "ideal" and case.get("law"):
+            amin = float(min(case["law"][0], case["law"][0] + case["law"][1]))      # user subclass: alpha(m) = a0 + a1 m on [0, 1]
+        elif case["kind"] == "ideal":
             amin = 1.0
         else:
             a = np.asarray(impl["fp"].pvt_props["alpha"], float)
